@@ -218,6 +218,9 @@ class RandomWalksGenerator:
                     else:
                         # No new states found, stay in place.
                         array_new_states = array_current_states
+            else:
+                # No history: every step is a real move.
+                i_step_corrected += 1
 
             # 3. Select desired number of states randomly.
             perm = torch.randperm(array_new_states.size(0), device=graph.device)
